@@ -142,4 +142,17 @@ def classify(by, t):
                                                for f in (d["fields"] if d["kind"] == "struct" else [f for v in d["variants"] for f in v["fields"]]))
     if buffered and big:
         return "serde_buffered_128bit"
+
+    def int_key(t):
+        if t[0] == "map" and t[1][0] == "leaf" and t[1][1] in C.INT_RANGE:
+            return True
+        for x in t[1:]:
+            if isinstance(x, tuple) and int_key(x):
+                return True
+            if isinstance(x, list) and any(isinstance(y, tuple) and int_key(y) for y in x):
+                return True
+        return False
+    if buffered and (int_key(t) or any(int_key(f["ty"]) for d in ds
+                                       for f in (d["fields"] if d["kind"] == "struct" else [f for v in d["variants"] for f in v["fields"]]))):
+        return "serde_buffered_integer_map_key"
     return None
